@@ -14,7 +14,7 @@ type heapViewInfo struct {
 // sumsPreserved: a permutation of the elements at off..off+n preserves every registered field sum.
 func (x *Exec) sumsPreserved(st *State, et types.Type, oldArr, newArr, off, n string) {
 	for _, f := range x.sumFuncs(et) {
-		x.assume(st, eq(app(f, newArr, off, app("+", off, n)), app(f, oldArr, off, app("+", off, n))))
+		x.assume(st, eq(app(f, newArr, app("at", off, "0"), app("at", off, n)), app(f, oldArr, app("at", off, "0"), app("at", off, n))))
 	}
 }
 
